@@ -2,7 +2,7 @@
  * Links the library's own objects.  One container and at most one live iterator per script.
  *
  * Values are small integers used as fake pointers (the containers never dereference user data);
- * 0 is the NULL pointer.  The list comparator compares v % 8, so distinct pointers can compare equal.
+ * 0 is the NULL pointer.  The list comparator matches key % 8 against (element / 8) % 8: distinct pointers can compare equal, and it is not symmetric.
  *
  * Output per op:  `dtor v`* (destructor calls, in order), `= <result>`, after `it new`/`it next`
  * `cur v` when the iterator is live (the element a for-loop body would see), and after every op the
@@ -26,7 +26,8 @@ static m_list_t *L;  static m_list_itr_t *LI;
 
 static int quiet;
 static void dtor_cb(void *p) { if (!quiet) printf("dtor %lu\n", V(p)); }
-static int cmp_cb(void *a, void *b) { return (int)(V(a) % 8) - (int)(V(b) % 8); }
+/* first argument: the caller's data, second: the list element (list.h); deliberately not symmetric */
+static int cmp_cb(void *a, void *b) { return (int)(V(a) % 8) - (int)((V(b) / 8) % 8); }
 
 /* iterate callback: prints the values; stops with rc > 0 before index stop_at (if >= 0) */
 typedef struct { int idx; int stop_at; int is_cb; int started; } cbst_t;
